@@ -16,7 +16,7 @@ RULE = ("monitor phases S0 -Wack(Input)-> S1 -ok-> L -R(Output)-> R1 -ok-> P -W(
         "any transport call in D is a violation.")
 
 
-def run(ctx, chk, prop="C05"):
+def _run_own(ctx, chk, prop="C05"):
     results, spec = seqcheck.run_all(ctx)
     n = 0
     for name, res in sorted(results.items()):
@@ -44,3 +44,17 @@ def run(ctx, chk, prop="C05"):
     chk.floor("distinct stream bodies", chk.analysed["distinct_bodies"], 12)
     chk.trusted.extend(["async-stream: `yield`/`?` inside try_stream! expand to Sender::send(Ok/Err) followed by return",
                         "tokio I/O futures perform their effect only when awaited"])
+
+
+def run(ctx, chk, prop="C05"):
+    _run_own(ctx, chk, prop)
+    if prop != "C05":
+        return
+    # "each packet the terminal sends is handed out once and answered once" presupposes that a packet *is* what
+    # read_packet returns: only read_exact reads the source, in the 3 / +2 / body plan (C04-a/b) - a hand-written fill
+    # loop that overwrites what it already received delivers garbled packets and reads into the next exchange
+    import rules_c04
+    from report import Sub
+    sub = Sub(chk, "C05/transport", lambda r: r.startswith(("C04-a/", "C04-b/")))
+    rules_c04.run(ctx, sub)
+    chk.floor("read_packet obligations (shared with C04-a/b)", sub.count, 4)
